@@ -774,7 +774,7 @@ def run_session(prop: str, spec: dict, rng: random.Random, nops: int, res: Resul
             op["reuse_attrs"] = 1   # the caller passes the same dict object it used for earlier adds
         if queue is None and op["op"] in ("addedge", "deledge", "addnode", "delnode", "swap", "updattrs") and rng.random() < 0.3:
             op["rep"] = rng.choice(["list", "nparr", "npscalar"])
-        if prop in ("C07", "C09") and queue is None and op["op"] == "addnode" and case.cfg == "seg" and op.get("pixels") is None:
+        if prop == "C07" and queue is None and op["op"] == "addnode" and case.cfg == "seg" and op.get("pixels") is None:
             op.pop("pos", None)  # a node without pixels is outside C07's consistent states (caller's choice)
         if prop == "C11" and queue is None and op["op"] == "paint" and op.get("value") and rng.random() < 0.15:
             # a stroke with the label of a node that lives in ANOTHER frame. The action accepts it
@@ -2760,6 +2760,15 @@ def run(prop: str, tier: str, seed: int, intensify: bool = False) -> Result:
     with mp.get_context("fork").Pool(min(shards, len(jobs))) as pool:
         for r in pool.imap_unordered(worker, jobs):
             res.merge(r)
+    # a change that makes the CONSTRUCTION of the objects under test fail would otherwise pass every
+    # check vacuously (each session "aborted", nothing evaluated)
+    aborted = sum(v for k, v in res.distribution.items() if k.startswith("session-aborted:"))
+    built = sum(v for k, v in res.distribution.items() if k.startswith("cfg:"))
+    if aborted > max(8, 0.05 * (aborted + built)) or res.evaluations == 0:
+        kinds_ = sorted(k.split(":", 1)[1] for k in res.distribution if k.startswith("session-aborted:"))
+        res.failures.append(Failure("oracle", prop, f"{prop}|construction|objects-under-test-cannot-be-built",
+                                    f"{aborted} of {aborted + built} initial states could not be constructed ({kinds_}); "
+                                    f"first note: {(res.notes or ['-'])[0][:300]}", {"aborted": aborted, "built": built}))
     # minimise oracle failures (delta debugging over the operation list)
     for f in res.failures:
         if f.kind == "oracle" and "ops" in f.replay:
